@@ -21,6 +21,9 @@ class T(tuple):
     def __repr__(self):
         return "T(%r, %r)" % (self[0], self[1])
 
+    def __reduce__(self):
+        return (T, (self[0], self[1]))
+
 
 def dumps(v):
     out = []
